@@ -190,6 +190,26 @@ func CheckExec(prop, tier string) int {
 		}
 	}
 
+	// ---- C07a beyond the bounded batches: the slot discipline as an inductive invariant (Apalache)
+	indOK, indNote := true, ""
+	if prop == "C07" {
+		sd := rep.Root + "/specs/slots"
+		for _, a := range [][]string{
+			{"--cinit=ConstInit", "--init=Init", "--inv=IndInv", "--length=0"},
+			{"--cinit=ConstInit", "--init=IndInit", "--inv=IndInv", "--length=1"},
+			{"--cinit=ConstInit", "--init=IndInit", "--inv=Inv_C07a", "--length=0"},
+		} {
+			ok, out := tlc.Apalache(sd, "SlotsMC", 5*time.Minute, a...)
+			if !ok {
+				indOK = false
+				indNote = tailStr(out, 1500)
+			}
+		}
+		if !indOK {
+			rp.Note("NOTE: Apalache did not discharge the inductive invariant of Slots.tla (not a verdict about the code):\n%s", indNote)
+		}
+	}
+
 	// ---- real executions
 	items := make([]WorkItem, len(progs))
 	for i, p := range progs {
@@ -422,7 +442,7 @@ func CheckExec(prop, tier string) int {
 			"mc_design_ok": mc.OK, "mc_timed_out": mc.TimedOut, "liveness_states": live.Distinct, "liveness_ok": live.OK,
 			"conformance_traces": len(confTraces), "conformance_accepted": mv.Accepted, "conformance_rejected": len(mv.Rejected), "conformance_states": mv.States,
 			"props_eval_states": pv.States,
-			"violation_signatures": seenSig, "harness_errors": harnessErrs, "cli_runs": cliRuns, "cli_mismatches": cliBad,
+			"violation_signatures": seenSig, "harness_errors": harnessErrs, "cli_runs": cliRuns, "cli_mismatches": cliBad, "slots_inductive_invariant_discharged_by_apalache": prop == "C07" && indOK,
 			"exhaustive": false,
 		},
 		Assumptions: []string{
